@@ -4,7 +4,7 @@ CONSTANTS
   MaxReqs = 2
   Templates = {"o23", "ret", "d3"}
   PatchKinds = {"plain2", "ret"}
-  FnLayouts = {"none", "one", "split", "tail"}
+  FnLayouts = {"none", "one", "split", "tail", "one2"}
   EndSyms = {FALSE}
   NoSyms = {FALSE}
   AnnModes = {"none"}
